@@ -123,7 +123,7 @@ func (c *Ctx) ruleUnsetNil(rule string) {
 			if core.IsNilConst(core.RetVal(r, 0)) {
 				continue
 			}
-			if !hold[r.Block()] {
+			if !hold[r.Key()] {
 				bad = c.M.InstrPos(r)
 			}
 		}
@@ -400,11 +400,19 @@ func (c *Ctx) ruleSuppliedNonNil(rule string) {
 		if fn.Name() != "Unserialize" || fn.Signature.Recv() == nil {
 			continue
 		}
+		// (the container may be made by a worker that Unserialize hands over to: its ways out are Unserialize's)
+		outs := core.WaysOut(fn)
 		makes := false
-		for _, b := range fn.Blocks {
-			for _, in := range b.Instrs {
-				if call, ok := in.(*ssa.Call); ok && isMake(call) {
-					makes = true
+		makers := map[*ssa.Function]bool{fn: true}
+		for _, ret := range outs {
+			makers[ret.Parent()] = true
+		}
+		for mf := range makers {
+			for _, b := range mf.Blocks {
+				for _, in := range b.Instrs {
+					if call, ok := in.(*ssa.Call); ok && isMake(call) {
+						makes = true
+					}
 				}
 			}
 		}
@@ -416,8 +424,8 @@ func (c *Ctx) ruleSuppliedNonNil(rule string) {
 			continue
 		}
 		cnt := 0
-		for _, ret := range core.ReturnsOf(fn) {
-			if c.M.ProvablyNonNilError(core.RetVal(ret, ei), ret.Block()) {
+		for _, ret := range outs {
+			if c.M.RetNonNil(ret, ei) {
 				continue
 			}
 			n++
